@@ -5,7 +5,7 @@ IDS=${@:-C01 C02 C03 C04 C05 C06 C07 C08 C09 C10 C11 C12 C13 C14 C15 C16 C17 C18
 cd "$(dirname "$0")/.."
 for i in $IDS; do
   s=$(date +%s)
-  timeout ${PER_CHECK_TIMEOUT:-3000} ./check $i --tier $TIER > /tmp/run_all_$i.$TIER.log 2>&1; rc=$?
+  timeout ${PER_CHECK_TIMEOUT:-3000} ./check $i --tier $TIER ${JOBS:+--jobs $JOBS} > /tmp/run_all_$i.$TIER.log 2>&1; rc=$?
   e=$(date +%s)
   echo "$i tier=$TIER exit=$rc wall=$((e-s))s :: $(grep "^\[$i" /tmp/run_all_$i.$TIER.log | tail -1 | cut -c1-260)"
   grep -E "^(VIOLATION|KNOWN-FINDING|HARNESS-ERROR)" /tmp/run_all_$i.$TIER.log | cut -c1-200 | head -5
